@@ -3,6 +3,11 @@ import Garnish.Driver.Proto
 import Garnish.Driver.LexDrv
 import Garnish.Driver.ParseDrv
 import Garnish.Driver.OpDrv
+import Garnish.Driver.BuildDrv
+import Garnish.Driver.HeapDrv
+import Garnish.Driver.ListDrv
+import Garnish.Driver.OptDrv
+import Garnish.Driver.RunDrv
 open Garnish Garnish.Proto
 
 def numCase (f : List String) : String :=
@@ -24,13 +29,24 @@ def cmpCase (f : List String) : String :=
     | _, _ => "BAD-CASE"
   | _ => "BAD-CASE"
 
-def runCase (f : List String) : String :=
+def dispatch (f : List String) : String :=
   match f.head? with
   | some "NUM" => numCase f
   | some "CMP" => cmpCase f
   | some "OP" => Garnish.Driver.opCase f
   | some "LEX" => Garnish.Driver.lexCase f
   | some "PARSE" => Garnish.Driver.parseCase f
+  | some "BUILD" => Garnish.Driver.buildCase f
+  | some "LIT" => Garnish.Driver.litCase f
+  | some "SYM" => Garnish.Driver.symCase f
+  | some "HEAP" => Garnish.Driver.heapCase f
+  | some "CACHE" => Garnish.Driver.cacheCase f
+  | some "LIST" => Garnish.Driver.listCase f
+  | some "OPT" => Garnish.Driver.optCase f
+  | some "CLONE" => Garnish.Driver.cloneCase f
+  | some "RUN" => Garnish.Driver.runCase f
+  | some "PROG" => Garnish.Driver.progCase f
+  | some "MULTI" => Garnish.Driver.multiCase f
   | _ => "UNKNOWN-SUITE"
 
 partial def loop (h : IO.FS.Stream) (out : IO.FS.Stream) : IO Unit := do
@@ -41,7 +57,7 @@ partial def loop (h : IO.FS.Stream) (out : IO.FS.Stream) : IO Unit := do
   let f := l.splitOn "\t"
   match f with
   | _ :: id :: _ =>
-    out.putStrLn s!"{id}\t{runCase f}"
+    out.putStrLn s!"{id}\t{dispatch f}"
   | _ => pure ()
   loop h out
 
